@@ -106,6 +106,17 @@ def _header_loads(st, name):
 
 
 def inline_new_temporaries(fn, ref_locals) -> int:
+    """Repeated until nothing changes: inlining one temporary can make the next one adjacent to its use."""
+    total = 0
+    for _ in range(6):
+        k = _inline_new_temporaries_once(fn, ref_locals)
+        total += k
+        if not k:
+            break
+    return total
+
+
+def _inline_new_temporaries_once(fn, ref_locals) -> int:
     new = set(_locals(fn)) - set(ref_locals)
     if not new:
         return 0
